@@ -385,6 +385,13 @@ func vfC19Scenarios(thorough bool) []*vfGWScenario {
 		Prefix: []string{"conn:a", "conn:b", "conn:c", "conn:d", "sub:a:t", "sub:b:t", "sub:c:t", "sub:d:t"}},
 		Alphabet: []string{"join:t", "leave:t", "hb", "graft:a:t", "prune:a:t", "graft:c:t", "prune:b:t:8", "score:a:-1", "score:b:-1", "disc:a", "conn:a", "sub:a:t", "pub:b:m1", "iwant:a:m1", "ihave:a:t:m2", "lpub:t:p1", "adv:2500"},
 		Msgs:     msgs, Depth: d})
+	// stream-level life of a mesh peer, among them a peer that is only ever inbound (our stream to it is still being
+	// opened or fails) and GRAFTs itself in: whatever removes it from the mesh must show in the trace
+	pq := []vfPeerCfg{{Name: "p", Proto: "v11", IP: "10.0.0.1"}, {Name: "q", Proto: "v12", IP: "10.0.0.2"}}
+	out = append(out, &vfGWScenario{Name: "gossip-streams", Cfg: vfGWCfg{Router: "gossip", Peers: pq, Topics: []string{"t"}, Params: "d2", Scoring: true, Tracer: true, SeenTTL: 3600,
+		Prefix: []string{"conn:q", "sub:q:t", "join:t", "hold:p", "conn:p", "sub:p:t"}},
+		Alphabet: []string{"graft:p:t", "prune:p:t", "inclose:p", "inreset:p", "inopen:p", "release:p", "failstream:p", "outreset:p", "disc:p", "conn:p", "sub:p:t", "hb", "adv:1100"},
+		Msgs:     msgs, Depth: d + 1})
 	out = append(out, &vfGWScenario{Name: "gossip-fanoutonly", Cfg: vfGWCfg{Router: "gossip", Peers: p4[:2], Topics: []string{"t", "u"}, Params: "d2", Tracer: true, SeenTTL: 3600, Extra: map[string]string{"fanout_only": "t"},
 		Prefix: []string{"conn:a", "sub:a:t"}},
 		Alphabet: []string{"join:t", "leave:t", "join:u", "leave:u", "relay:u", "unrelay:u", "lpub:t:p1", "lpub:t:p2", "hb", "conn:b", "sub:b:t"}, Msgs: msgs, Depth: d})
@@ -394,10 +401,26 @@ func vfC19Scenarios(thorough bool) []*vfGWScenario {
 func vfC19Mk(x *vfExec, sc *vfGWScenario) vfInstance {
 	base := newVfGWInst(x, sc, nil)
 	in := &vfC19Inst{vfGWInst: base, joined: map[string]bool{}, peers: map[string]bool{}, mesh: map[string]map[string]bool{}, deliver: map[string]int{}, pending: map[string][]string{}}
-	// the prefix is peer arrival and remote subscriptions only: its trace is the ADD_PEER events
-	for _, ev := range sc.Cfg.Prefix {
-		if strings.HasPrefix(ev, "conn:") {
-			in.peers[ev[5:]] = true
+	// the state the prefix built is the base line the trace is replayed onto (the prefix's own trace is not kept)
+	s0 := base.last
+	for p := range s0.Peers {
+		in.peers[p] = true
+	}
+	for t, m := range s0.Mesh {
+		in.joined[t] = true
+		in.mesh[t] = map[string]bool{}
+		for p := range m {
+			in.mesh[t][p] = true
+		}
+	}
+	for t, n := range s0.MySubs {
+		if n > 0 {
+			in.joined[t] = true
+		}
+	}
+	for t, n := range s0.MyRelays {
+		if n > 0 {
+			in.joined[t] = true
 		}
 	}
 	return in
